@@ -24,8 +24,25 @@
    Bindings are a store that is passed down the search path (undoing = returning to the caller's
    store); the database, the Answer identities and the allocation counter are global: they are
    threaded through the search in execution order and never reset by backtracking.
-   Not modelled here: cut, disjunction, negation, call/N, findall (C01/C05/C06/C09); a program is a
-   list of clauses (name, number of variables, head arguments, list of goals).
+   Control (round 5): a body is a list of goals (a conjunction) whose elements may be `!` (GCut), `fail`,
+   `( A ; B )` (GOr), `( C -> T ; E )` (GIf; `( C -> T )` is GIf c t [GFail], `\+ C` is GIf c [GFail] [], as the
+   compiler rewrites them), with the semantics of the repaired compiler (reference: Sem/RefSem.v):
+   - the search is in continuation style as the compiler's rewriting is: `(A ; B), R` runs A,R then B,R;
+     `(C -> T ; E), R` runs C and, at its FIRST answer, T,R - else E,R; the rest of the body runs INSIDE
+     the loops of the goals before it, so every loop that a cut or a commit leaves was suspended;
+   - a cut runs the rest of the body (and of the callers' bodies) and then ends every loop of its clause
+     and the clause loop of its predicate (tryclauses); it is not propagated to the caller; a cut inside
+     a condition (or under \+) ends only the loops of the condition; the else branch is then tried;
+   - how a run ended is a flag `option nat`: None = exhausted; Some j = the j-th enclosing frame (and with
+     it every frame inside) is being left (frames: clause bodies, opened by tryclauses and ended by the
+     marker GPop; conditions - two frames each: the condition proper, which a cut of its own leaves, and
+     the if-then-else, which the marker GCommit leaves after the then branch); every loop stops at a flag;
+   - the database, the Answer identities and the allocation counter are threaded through ALL of it: what
+     a discarded branch (the goals before a cut, a condition, the goal of a \+) has written stays.
+   Not modelled here: call/N, findall (C09); a program is a list of clauses (name, number of variables,
+   head arguments, list of goals).  GPop / GCommit never occur in a source program (DbProgCut.src_prog; the
+   safety theorems of DbProgThms / DbProgInv / DbProgSim hold for every list of goals, markers or not; DbProgCut.v
+   proves, for source programs, that a query ends with flag None: a cut is not propagated to the caller).
 
    The result of [solve] carries, besides the answers (the stores at the solutions, in order), the
    trace of the atomic database updates in the order in which they happened, in the vocabulary of the
@@ -58,7 +75,41 @@ Inductive goal :=
 | GCall (name : str) (args : list term)    (* name(args): dynamic facts, then compiled clauses *)
 | GAssert (front : bool) (t : term)        (* asserta(T) / assertz(T) *)
 | GRetract (t : term)
-| GRetractAll (t : term).
+| GRetractAll (t : term)
+| GFail                                    (* fail *)
+| GCut                                     (* ! *)
+| GOr (a b : list goal)                    (* ( A ; B ) *)
+| GIf (c t e : list goal)                  (* ( C -> T ; E ) *)
+| GPop                                     (* marker: end of a clause body *)
+| GCommit.                                 (* marker: end of a condition ($CUTIF) *)
+
+Definition GNot (c : list goal) : goal := GIf c [GFail] [].          (* \+ C  =>  ( C -> fail ; true ) *)
+Definition GIfThen (c t : list goal) : goal := GIf c t [GFail].      (* ( C -> T )  =>  ( C -> T ; fail ) *)
+
+Section GoalInd.
+  Variable P : goal -> Prop.
+  Hypothesis Hu : forall a b, P (GUnify a b).
+  Hypothesis Hc : forall n args, P (GCall n args).
+  Hypothesis Ha : forall fr t, P (GAssert fr t).
+  Hypothesis Hr : forall t, P (GRetract t).
+  Hypothesis Hra : forall t, P (GRetractAll t).
+  Hypothesis Hf : P GFail.
+  Hypothesis Hcut : P GCut.
+  Hypothesis Hor : forall a b, Forall P a -> Forall P b -> P (GOr a b).
+  Hypothesis Hif : forall c t e, Forall P c -> Forall P t -> Forall P e -> P (GIf c t e).
+  Hypothesis Hpop : P GPop.
+  Hypothesis Hcommit : P GCommit.
+  Fixpoint goal_ind' (g : goal) : P g :=
+    let go := fix go (l : list goal) : Forall P l :=
+      match l with [] => Forall_nil P | x :: r => Forall_cons x (goal_ind' x) (go r) end in
+    match g with
+    | GUnify a b => Hu a b | GCall n args => Hc n args | GAssert fr t => Ha fr t
+    | GRetract t => Hr t | GRetractAll t => Hra t | GFail => Hf | GCut => Hcut
+    | GOr a b => Hor (go a) (go b)
+    | GIf c t e => Hif (go c) (go t) (go e)
+    | GPop => Hpop | GCommit => Hcommit
+    end.
+End GoalInd.
 
 Record clause := mkcl { cname : str; cnv : nat; chead : list term; cbody : list goal }.
 Definition program := list clause.
@@ -70,13 +121,16 @@ Fixpoint shift (k : nat) (t : term) : term :=
   | TFun f args => TFun f (map (shift k) args)
   | _ => t
   end.
-Definition shift_goal (k : nat) (g : goal) : goal :=
+Fixpoint shift_goal (k : nat) (g : goal) : goal :=
   match g with
   | GUnify a b => GUnify (shift k a) (shift k b)
   | GCall n args => GCall n (map (shift k) args)
   | GAssert fr t => GAssert fr (shift k t)
   | GRetract t => GRetract (shift k t)
   | GRetractAll t => GRetractAll (shift k t)
+  | GOr a b => GOr (map (shift_goal k) a) (map (shift_goal k) b)
+  | GIf c t e => GIf (map (shift_goal k) c) (map (shift_goal k) t) (map (shift_goal k) e)
+  | GFail | GCut | GPop | GCommit => g
   end.
 
 Definition clauses_of (p : program) (name : str) (ar : nat) : list clause :=
@@ -88,13 +142,43 @@ Definition clauses_of (p : program) (name : str) (ar : nat) : list clause :=
 Record glob := mkg { gdb : db; gid : nat; gn : nat; gw : nat }.
 Definition set_n (g : glob) (n : nat) : glob := mkg (gdb g) (gid g) n (gw g).
 
-Definition res := option (glob * list store * list out).
+(* how a run ended: None = the alternatives are exhausted; Some j = frame j (counted outwards from the
+   innermost one) is being left *)
+Definition cutflag := option nat.
+Definition res := option (glob * list store * list out * cutflag).
 
-Definition bindr (x : res) (f : glob -> res) : res :=
+(* x, and - unless x ended with a flag that [lv] turns into a stop - then f from the global state x left.
+   lv c = None: go on with f; lv c = Some c': stop, the flag becomes c' *)
+Definition alt (lv : cutflag -> option cutflag) (x : res) (f : glob -> res) : res :=
   match x with
   | None => None
-  | Some (g1, a1, t1) => match f g1 with None => None | Some (g2, a2, t2) => Some (g2, a1 ++ a2, t1 ++ t2) end
+  | Some (g1, a1, t1, c1) =>
+      match lv c1 with
+      | Some c' => Some (g1, a1, t1, c')
+      | None => match f g1 with None => None | Some (g2, a2, t2, c2) => Some (g2, a1 ++ a2, t1 ++ t2, c2) end
+      end
   end.
+
+(* a loop inside a frame: any flag stops it and is passed on *)
+Definition lv_loop (c : cutflag) : option cutflag := match c with None => None | Some j => Some (Some j) end.
+(* the clause loop of a predicate: the frame of the clause body is frame 0 *)
+Definition lv_clause (c : cutflag) : option cutflag :=
+  match c with None => None | Some 0 => Some None | Some (S j) => Some (Some j) end.
+(* if-then-else: frame 0 = the condition (left by a cut of its own: the else branch is tried), frame 1 = the
+   if-then-else (left by GCommit after the then branch: the else branch is skipped) *)
+Definition lv_if (c : cutflag) : option cutflag :=
+  match c with None | Some 0 => None | Some 1 => Some None | Some (S (S j)) => Some (Some j) end.
+
+Definition bindr := alt lv_loop.
+
+Definition tag (o : out) (x : res) : res :=
+  match x with None => None | Some (g1, a1, t1, c1) => Some (g1, a1, o :: t1, c1) end.
+Definition mapflag (f : cutflag -> cutflag) (x : res) : res :=
+  match x with None => None | Some (g1, a1, t1, c1) => Some (g1, a1, t1, f c1) end.
+
+Definition fl_cut (c : cutflag) : cutflag := Some (match c with None => 0 | Some j => j end).
+Definition fl_pop (c : cutflag) : cutflag := match c with None => None | Some j => Some (S j) end.
+Definition fl_commit (c : cutflag) : cutflag := Some (match c with None => 1 | Some j => S (S j) end).
 
 (* retractall: one pass; the facts that stay, the identities of the others, the allocation counter *)
 Fixpoint rallh (uf : nat) (s : store) (args : list term) (l : list fact) (n : nat) : option (list fact * list nat * nat) :=
@@ -115,15 +199,11 @@ Section Loops.
   (* _match_all_clauses over the snapshot l, the rest of the body r being run at every match *)
   Fixpoint scanq (args : list term) (r : list goal) (s : store) (l : list fact) (g : glob) : res :=
     match l with
-    | [] => Some (g, [], [])
+    | [] => Some (g, [], [], None)
     | f :: l' =>
         match answer_match_fast uf s (gn g) args (fargs f) with
         | (UOk s', n1) =>
-            bindr (match rec r s' (set_n g n1) with
-                   | None => None
-                   | Some (g1, a1, t1) => Some (g1, a1, OAns (fid f) (map (den_fast s') args) :: t1)
-                   end)
-                  (scanq args r s l')
+            bindr (tag (OAns (fid f) (map (den_fast s') args)) (rec r s' (set_n g n1))) (scanq args r s l')
         | (UFail, n1) => scanq args r s l' (set_n g n1)
         | _ => None
         end
@@ -132,15 +212,13 @@ Section Loops.
   (* YP.retract over the snapshot l *)
   Fixpoint scanr (k : key) (args : list term) (r : list goal) (s : store) (l : list fact) (g : glob) : res :=
     match l with
-    | [] => Some (g, [], [])
+    | [] => Some (g, [], [], None)
     | f :: l' =>
         match answer_match_fast uf s (gn g) args (fargs f) with
         | (UOk s', n1) =>
             if has_id (fid f) (gdb g k) then
-              bindr (match rec r s' (mkg (upd k (del_id (fid f) (gdb g k)) (gdb g)) (gid g) n1 (gw g)) with
-                     | None => None
-                     | Some (g1, a1, t1) => Some (g1, a1, ORet k (fid f) (map (den_fast s') args) :: t1)
-                     end)
+              bindr (tag (ORet k (fid f) (map (den_fast s') args))
+                         (rec r s' (mkg (upd k (del_id (fid f) (gdb g k)) (gdb g)) (gid g) n1 (gw g))))
                     (scanr k args r s l')
             else scanr k args r s l' (set_n g n1)
         | (UFail, n1) => scanr k args r s l' (set_n g n1)
@@ -148,15 +226,16 @@ Section Loops.
         end
     end.
 
-  (* the compiled function: its clauses in order *)
+  (* the compiled function: its clauses in order; the body of a clause is a frame of its own, closed by GPop:
+     a cut in it ends this loop and goes no further *)
   Fixpoint tryclauses (args : list term) (r : list goal) (s : store) (cls : list clause) (g : glob) : res :=
     match cls with
-    | [] => Some (g, [], [])
+    | [] => Some (g, [], [], None)
     | c :: cs =>
         let k := gn g in
         let g0 := set_n g (k + cnv c) in
         match unify_arrays_fast uf s args (map (shift k) (chead c)) with
-        | UOk s' => bindr (rec (map (shift_goal k) (cbody c) ++ r) s' g0) (tryclauses args r s cs)
+        | UOk s' => alt lv_clause (rec (map (shift_goal k) (cbody c) ++ GPop :: r) s' g0) (tryclauses args r s cs)
         | UFail => tryclauses args r s cs g0
         | _ => None
         end
@@ -173,11 +252,11 @@ Section Solve.
     | S n', S w =>
         let g := mkg (gdb g) (gid g) (gn g) w in
         match gs with
-        | [] => Some (g, [s], [])
+        | [] => Some (g, [s], [], None)
         | GUnify a b :: r =>
             match unify_fast uf s a b with
             | UOk s' => solve n' r s' g
-            | UFail => Some (g, [], [])
+            | UFail => Some (g, [], [], None)
             | _ => None
             end
         | GCall name args :: r =>
@@ -190,30 +269,29 @@ Section Solve.
                 let (stored, n1) := answer_init_fast s args (gn g) in
                 let k := (name, length args) in
                 let f := mkfact (gid g) stored in
-                match solve n' r s (mkg (upd k (ins front f (gdb g k)) (gdb g)) (S (gid g)) n1 (gw g)) with
-                | None => None
-                | Some (g1, a1, t1) => Some (g1, a1, OIns k front f :: t1)
-                end
+                tag (OIns k front f) (solve n' r s (mkg (upd k (ins front f (gdb g k)) (gdb g)) (S (gid g)) n1 (gw g)))
             end
         | GRetract t :: r =>
             match callable (den_fast s t) with
-            | None => Some (g, [], [])
+            | None => Some (g, [], [], None)
             | Some (name, args) => scanr uf (solve n') (name, length args) args r s (gdb g (name, length args)) g
             end
         | GRetractAll t :: r =>
             match callable (den_fast s t) with
-            | None => Some (g, [], [])
+            | None => Some (g, [], [], None)
             | Some (name, args) =>
                 let k := (name, length args) in
                 match rallh uf s args (gdb g k) (gn g) with
                 | None => None
-                | Some (keep, gone, n1) =>
-                    match solve n' r s (mkg (upd k keep (gdb g)) (gid g) n1 (gw g)) with
-                    | None => None
-                    | Some (g1, a1, t1) => Some (g1, a1, ORAll k gone :: t1)
-                    end
+                | Some (keep, gone, n1) => tag (ORAll k gone) (solve n' r s (mkg (upd k keep (gdb g)) (gid g) n1 (gw g)))
                 end
             end
+        | GFail :: _ => Some (g, [], [], None)
+        | GCut :: r => mapflag fl_cut (solve n' r s g)
+        | GOr a b :: r => bindr (solve n' (a ++ r) s g) (solve n' (b ++ r) s)
+        | GIf c t e :: r => alt lv_if (solve n' (c ++ GCommit :: t ++ r) s g) (solve n' (e ++ r) s)
+        | GPop :: r => mapflag fl_pop (solve n' r s g)
+        | GCommit :: r => mapflag fl_commit (solve n' r s g)
         end
     end.
 End Solve.
